@@ -22,6 +22,18 @@ KNOBS = dict(p_bounds=0.4, p_constraint=0.9, p_penalty=0.2, p_vector=0.05, p_lim
 ORACLES = [oracles.ConstraintOracle]
 
 def _gen_plan(seed, tier):
+    from ..env import sub_rng
+    r7 = sub_rng(seed, 'plan.c03.sigint')
+    if r7.random() < 0.08:
+        # 'wherever the run is stopped': Ctrl-C while an iteration is in progress, mystic's handler enabled, the user answers 'exit' at
+        # the prompt (the run ends after the work in progress) -- the reported solution is still the constrained point with its energy
+        plan = solverplan.gen_solver_plan(seed, tier, ID, dict(KNOBS, solvers=['Powell', 'Powell', 'NM', 'DE', 'DE2'], p_handler=1.0, p_solve=0.0,
+                                                                p_constraint=1.0, p_term=0.3, p_limits=0.3, p_midrun_set=0.0, max_ops=1, small_limits=False))
+        plan['ops'] = [o for o in plan['ops'] if o['op'] == 'set']
+        plan['ops'].append({'op': 'solve'})      # (the handler is armed by Solve, not by Step)
+        plan['faults'] = [{'at': 'cost#%d' % a, 'kind': 'interrupt', 'tty': r7.choice([['exit'], ['exit'], ['exit'], ['cont'], ['sol', 'exit']])}
+                          for a in sorted(set(r7.randint(2, 80) for _ in range(r7.choice([1, 1, 2]))))]
+        return plan
     return solverplan.gen_solver_plan(seed, tier, ID, KNOBS)
 
 def _run_plan(plan):
@@ -46,6 +58,11 @@ _valid0 = valid
 _simplify0 = simplify
 def valid(plan):
     if plan.get('kind') == 'wrapper': return True
+    if any(f.get('kind') == 'interrupt' for f in plan.get('faults', [])):
+        # (an interrupt with no handler armed -- the handler is armed by Solve only -- is a KeyboardInterrupt that ends the user's program)
+        first = next((i for i, o in enumerate(plan['ops']) if o['op'] in ('step', 'solve')), len(plan['ops']))
+        if not any(o['op'] == 'set' and o['what'] == 'handler' and o.get('arg') for o in plan['ops'][:first]): return False
+        if any(o['op'] == 'step' for o in plan['ops']): return False
     return True if _valid0 is None else _valid0(plan)
 def simplify(plan):
     if plan.get('kind') == 'wrapper': return _wr.simplify_wrapper_plan(plan)
